@@ -1518,7 +1518,7 @@ class Num:
         return out
 
     # ---- trace-partitioned reachability to a site
-    def states_at(self, target_ids, entry_state=None):
+    def states_at(self, target_ids, entry_state=None, after_ids=()):
         """abstract states holding immediately before each CFG element whose id is in target_ids.
         Returns {elem id: [State...]}"""
         fn = self.fn
@@ -1545,6 +1545,19 @@ class Num:
         if entry_state is None and self.hooks is not None and hasattr(self.hooks, "entry"):
             self.hooks.entry(self, st0)
         out = {tid: [] for tid in target_ids}
+        for aid in after_ids:
+            out[("after", aid)] = []
+            if aid in self.elem_of:
+                want_blocks.add(self.elem_of[aid][0])
+        if after_ids:
+            can = set(want_blocks)
+            work = list(want_blocks)
+            while work:
+                x = work.pop()
+                for p in preds.get(x, []):
+                    if p not in can:
+                        can.add(p)
+                        work.append(p)
         self.paths = 0
         loops = self.loops()
         stack = [(fn.entry, st0, frozenset())]
@@ -1562,6 +1575,10 @@ class Num:
             if want_exit and b == fn.exit:
                 out[-1].append(st.copy())
             for i, e in enumerate(B.elems):
+                ph = getattr(self, "pre_hooks", None)
+                if ph and e.get("id") in ph:
+                    for s in states:
+                        ph[e["id"]](self, s)
                 if (b, i) in targets:
                     for tid in targets[(b, i)]:
                         out[tid].extend(s.copy() for s in states)
@@ -1569,6 +1586,8 @@ class Num:
                 for s in states:
                     nxt.extend(self.exec_elem(e, s))
                 states = nxt
+                if e.get("id") in after_ids:
+                    out[("after", e["id"])].extend(s.copy() for s in states)
                 if not states:
                     break
             if not states or B.noreturn:
